@@ -81,6 +81,12 @@ UNITS = [
       ("CHK_TBL_NAME", "((unsigned char *)_HDF_CHK_TBL_NAME)", "strlen(_HDF_CHK_TBL_NAME)"),
       ("CHK_FIELD_NAMES", "((unsigned char *)_HDF_CHK_FIELD_NAMES)", "strlen(_HDF_CHK_FIELD_NAMES)")]),
     ("Hcomp", '#include "hdf_priv.h"\n#include "%s/hcomp.c"\n' % HS, ["COMP_HEADER_VERSION", "COMP_START_BLOCK"], []),
+    # element / linked-block layer (C01): special-tag bit arithmetic evaluated by the compiler on the real macros
+    ("Elem", '#include "hdf_priv.h"\n#include "hfile_priv.h"\n',
+     [("SPECIAL_TAG_BIT", "MKSPECIALTAG(0)"), ("MKSPECIAL_100", "MKSPECIALTAG(100)"), ("MKSPECIAL_LINKED", "MKSPECIALTAG(DFTAG_LINKED)"),
+      ("BASETAG_MKSPECIAL_100", "BASETAG(MKSPECIALTAG(100))"), ("IS_SPECIAL_MKSPECIAL_100", "SPECIALTAG(MKSPECIALTAG(100)) ? 1 : 0"),
+      ("IS_SPECIAL_100", "SPECIALTAG(100) ? 1 : 0"), ("EXTENDED_TAG_BIT", "0x8000"),
+      ("H4_OP_UNKNOWN_", "H4_OP_UNKNOWN"), ("FILE_END_DIRTY_", "FILE_END_DIRTY"), ("DDLIST_DIRTY_", "DDLIST_DIRTY")], []),
     ("Mcache", '#include "hdf_priv.h"\n#include "mcache_priv.h"\n', ["HASHSIZE","DEF_PAGESIZE","DEF_MAXCACHE","MCACHE_DIRTY","MCACHE_PINNED","ELEM_READ","ELEM_WRITTEN","ELEM_SYNC"], []),
     # C05 bit I/O, n-bit coder, skipping Huffman coder (private macros and static tables of the .c files)
     ("Hbitio", '#include "hdf_priv.h"\n#include "%s/hbitio.c"\n' % HS,
